@@ -301,9 +301,12 @@ Record g7 : Type := mkG7 {
   g_due : option N;                (* the model's earliest due work after the previous iteration *)
   g_ann : list (pkey * (N * N));   (* instance -> (time of the first announcement, announcements so far) *)
   g_unreg : bool;                  (* an unregister or shutdown call was made *)
-  g_unarmed : list (pkey * N) }.   (* probes created inside the probing handler: (interface, name) -> next_send *)
+  g_unarmed : list (pkey * N);     (* probes created inside the probing handler: (interface, name) -> next_send *)
+  g_skew : list pkey }.            (* names whose probe had next_send >= start_time + 750 at some point: it will
+                                      finish at next_send without another probe query (update_hostname moves
+                                      start_time of a probe that a lost tie-break had deferred) *)
 
-Definition g7_init : g7 := mkG7 [] [] [] [] false None [] false [].
+Definition g7_init : g7 := mkG7 [] [] [] [] false None [] false [] [].
 
 Definition dedup_by {A} (eqb : A -> A -> bool) (l : list A) : list A :=
   fold_left (fun acc x => if existsb (eqb x) acc then acc else acc ++ [x]) l [].
@@ -357,6 +360,10 @@ Definition c07_iter (g : g7) (st : dstate) (it : iter) (post : dstate) (obs : li
                              then acc ++ [k] else acc) (g_cnt g) (g_est g) in
   let established (i : N) (n : bytes) : bool :=
     existsb (same_name_ci n) free || existsb (pkey_eqb (i, lname n)) est in
+  let skew :=
+    g_skew g ++ flat_map (fun ir => flat_map (fun np => if pb_start (snd np) + 750 <=? pb_next (snd np)
+                                                        then [(fst ir, lname (fst np))] else [])
+                                             (rg_probing (snd ir))) (d_regs st ++ d_regs post) in
   let proposed (i : N) (r : rr) : bool :=
     existsb (same_name_ci (r_name r)) free
     || match kget rkey_eqb (i, r) (g_rcnt g) with Some c => 3 <=? c | None => false end in
@@ -368,6 +375,8 @@ Definition c07_iter (g : g7) (st : dstate) (it : iter) (post : dstate) (obs : li
                   let olds := old_names (get_reg st i) ++ old_names (get_reg post i) in
                   (if forallb (fun r => established i (r_name r)) uniq then []
                    else if late then [VKnown 42]
+                   else if forallb (fun r => established i (r_name r) || existsb (pkey_eqb (i, lname (r_name r))) skew) uniq
+                   then [VKnown 46]
                    else if existsb (fun r => negb (established i (r_name r)) && uses_old olds r) uniq
                         && forallb (fun r => established i (r_name r) || uses_old olds r) uniq
                    then [VKnown 43]
@@ -391,11 +400,16 @@ Definition c07_iter (g : g7) (st : dstate) (it : iter) (post : dstate) (obs : li
   let probes_of (d : dstate) : list (pkey * N) :=
     flat_map (fun ir => map (fun np => ((fst ir, [fst np]), pb_next (snd np))) (rg_probing (snd ir))) (d_regs d) in
   let key_next_eqb (a b : pkey * N) : bool := pkey_eqb (fst a) (fst b) && (snd a =? snd b) in
+  (* names whose probe finished in this iteration's probing pass: a probe under such a name
+     afterwards was created by the handler *)
+  let finished : list pkey :=
+    flat_map (fun ir => map (fun n => (fst ir, [n])) (snd (tick_names (snd ir) now))) (d_regs st3) in
   let before := probes_of st3 in
   let after := probes_of post in
   let unarmed :=
     filter (fun kn => existsb (key_next_eqb kn) after) (g_unarmed g)
-    ++ filter (fun kn => negb (existsb (key_next_eqb kn) before) && negb (snd kn =? probe_next_send now)) after in
+    ++ filter (fun kn => (negb (existsb (key_next_eqb kn) before) && negb (snd kn =? probe_next_send now))
+                         || existsb (pkey_eqb (fst kn)) finished) after in
   let offenders (w : option N) : list (pkey * N) :=
     filter (fun kn => match w with Some w => snd kn <? w | None => true end) after in
   let retrans_late (w : option N) : bool :=
@@ -433,7 +447,7 @@ Definition c07_iter (g : g7) (st : dstate) (it : iter) (post : dstate) (obs : li
   (mkG7 (fold_left (fun acc k => kset pkey_eqb k now acc) pn (g_last g))
         (fold_left (fun acc k => incr pkey_eqb k acc) pn (g_cnt g))
         (fold_left (fun acc k => incr rkey_eqb k acc) (probed_records obs) (g_rcnt g))
-        est late (if d_dead post then None else due) g_ann' unreg unarmed,
+        est late (if d_dead post then None else due) g_ann' unreg unarmed (dedup_by pkey_eqb skew),
    v_space ++ v_form ++ v_resp ++ v_wake ++ v_second).
 
 (* ---- running a checker next to the model over a whole history ------------------------------------- *)
